@@ -88,6 +88,11 @@ func requireOnSuccessIdx(c *fw.Ctx, rule, fname string, fn *ssa.Function, idx in
 					if strings.Contains(l.Atom, "closure:") || strings.Contains(l.Atom, "func:") {
 						op = l.Atom
 					}
+					// the result of an unexported helper (a method of a request object, a function
+					// with several results) that the expansion could not open
+					if fw.AtomCallsUnexportedHelper(l.Atom) {
+						op = l.Atom
+					}
 				}
 				if op != "" {
 					opaque = op
@@ -319,32 +324,24 @@ func checkC15(c *fw.Ctx) {
 			{"in a known room the invited user is not already joined", []lit{{[]string{"(gmsl.RoomQuerier).IsKnownRoom(", "#0"}, false}, {[]string{"gmsl.abortIfAlreadyJoined(param:ctx,*&param:input.RoomID,*&param:input.InvitedSenderID,*&param:input.MembershipQuerier) == nil)"}, true}}},
 			nd("the stripped state could be attached", true, "gmsl.setUnsignedFieldForInvite(param:event,", " == nil)"),
 		}, 1)
-		// the already-joined guard depends on nothing but the room being known
-		for _, call := range fw.CallsTo(fn, false, fw.NameIs("gmsl.abortIfAlreadyJoined")) {
-			pc, ok := fw.PathConds(fn)
-			if !ok {
-				continue
-			}
-			known := "(gmsl.RoomQuerier).IsKnownRoom(*&param:input.RoomQuerier,param:ctx,*&param:input.RoomID)#0"
-			// evaluate: for known room and every combination of the other atoms (errors nil), the call is reached
-			reachedAlways := true
-			for _, stripped := range []bool{true, false} {
-				env := func(atom string) (bool, bool) {
-					switch {
-					case atom == known:
-						return true, true
-					case atom == "(builtin.len(*&param:input.StrippedState) == 0)":
-						return !stripped, true
-					case strings.HasPrefix(atom, "(builtin.len(phi(*&param:input.StrippedState|"):
-						return false, true // some state is available
-					}
-					return true, true // error results are nil
-				}
-				if !evalDNF(pc[call.Block()], env, map[string]bool{}) {
-					reachedAlways = false
+		// the already-joined guard depends on nothing but the room being known: wherever the call
+		// sits (the function or a helper), no condition on the inviter-supplied stripped state
+		// stands between the handler's entry and it
+		nAJ := 0
+		for _, dc := range deepCallsTo(fn, fw.NameIs("gmsl.abortIfAlreadyJoined")) {
+			nAJ++
+			dep := ""
+			for _, f := range fw.DeepFacts(dc.Fr, dc.Call.Block()) {
+				// (a test of the merged state - supplied or generated - is the same for both origins)
+				merged := strings.Contains(f, "phi(") && strings.Contains(f, "input.StrippedState") && strings.Contains(f, "GenerateStrippedState(")
+				if strings.Contains(f, "StrippedState") && !merged {
+					dep = f
 				}
 			}
-			c.Check(reachedAlways, "4 invite", "the already-joined check runs for every known room, whoever supplied the stripped state", c.P.Pos(call.Pos()), "", "for a known room the already-joined check is skipped when the inviter supplied invite_room_state (or when it did not)")
+			c.Check(dep == "", "4 invite", "the already-joined check runs for every known room, whoever supplied the stripped state", c.P.Pos(dc.Call.Pos()), "", "the already-joined check is reached only under "+dep+": for a known room it is skipped depending on whether the inviter supplied invite_room_state")
+		}
+		if nAJ == 0 {
+			c.Undecided("4 invite", "the already-joined check runs for every known room, whoever supplied the stripped state", "no call of abortIfAlreadyJoined in the region of handleInviteCommonChecks")
 		}
 	}
 	if fn := mustFunc(c, "4 invite", "abortIfAlreadyJoined"); fn != nil {
